@@ -30,7 +30,16 @@ FORMS = {
     "d1-month-y": [("D", 1), " ", "B", " ", ("Y", 4)],
     "weekday-d-month-y-time": ["Sunday ", ("D", 2), " ", "B", " ", ("Y", 4), " ", ("H", 2), ":",
                                ("T", 2)],
+    # "any clock time in the string preserved": seconds, fractions, 12-hour clock
+    "ymd-slash-hms": [("Y", 4), "/", ("M", 2), "/", ("D", 2), " ", ("H", 2), ":", ("T", 2), ":", ("S", 2)],
+    "ymd-dash-hms-f": [("Y", 4), "-", ("M", 2), "-", ("D", 2), " ", ("H", 2), ":", ("T", 2), ":", ("S", 2),
+                       ".", ("f", 6)],
+    "dmy-dash-12h": [("D", 2), "-", ("M", 2), "-", ("Y", 4), " ", ("I", 2), ":", ("T", 2), " ", "P"],
 }
+# 12-hour markers: Latin for both calendars, the Arabic words for Hijri
+MARKERS = {"jalali": [("am", 0), ("pm", 12)],
+           "hijri": [("am", 0), ("pm", 12), ("\u0635\u0628\u0627\u062d\u0627\u064b", 0),
+                     ("\u0645\u0633\u0627\u0621\u064b", 12)]}
 
 
 class calendar_parse:
@@ -49,6 +58,9 @@ class calendar_parse:
                     months = JALALI_MONTHS if thorough else ["Farvardin", "Mehr", "Esfand"]
                     for mo in months:
                         out.append(dict(calendar=which, form=form, month=mo))
+                elif "P" in tpl:
+                    for mk, add in MARKERS[which]:
+                        out.append(dict(calendar=which, form=form, marker=mk, pm=add))
                 else:
                     out.append(dict(calendar=which, form=form))
         return out
@@ -58,10 +70,11 @@ class calendar_parse:
         from pyvc.harness import build, make_settings
 
         cls = _parser_cls(case["calendar"])
-        tpl = [case["month"] if p == "B" else p for p in FORMS[case["form"]]]
+        tpl = [case["month"] if p == "B" else case["marker"] if p == "P" else p
+               for p in FORMS[case["form"]]]
         s, f = build(inp, tpl)
         st = make_settings()
-        if case["form"] == "dmy-dash":
+        if case["form"].startswith("dmy-dash"):
             st = make_settings(DATE_ORDER="DMY")
         return cls.parse, (s, st), {}, dict(f=f)
 
@@ -74,10 +87,16 @@ class calendar_parse:
         Y, D = f["Y"], f["D"]
         M = (JALALI_MONTHS.index(case["month"]) + 1) if "month" in case else f["M"]
         lo, hi = RANGE[case["calendar"]]
-        H, T = f.get("H", 0), f.get("T", 0)
+        T, S, us = f.get("T", 0), f.get("S", 0), f.get("f", 0)
+        if "I" in f:
+            hvalid = And(f["I"] >= 1, f["I"] <= 12)
+            H = Ite(f["I"] == 12, 0, f["I"]) + case["pm"]
+        else:
+            H = f.get("H", 0)
+            hvalid = H <= 23
         valid = And(Y >= lo, Y <= hi, M >= 1, M <= 12, D >= 1,
                     D <= extcal.spec_month_length(cal, Y, Ite(And(M >= 1, M <= 12), M, 1)),
-                    H <= 23, T <= 59)
+                    hvalid, T <= 59, S <= 59)
         if case["calendar"] == "hijri":
             # the statement quantifies over days 1..29/30; the reference table's three 31-day
             # months (1345-05, 1348-11, 1349-11) are outside it (day 31 is refused: observation)
@@ -90,7 +109,7 @@ class calendar_parse:
         return {
             "valid=>parses": True,
             "valid=>reference-conversion-of-the-written-date": Implies(
-                valid, same_fields(dt, gy, gm, gd, H, T)),
+                valid, same_fields(dt, gy, gm, gd, H, T, S, us)),
             "valid=>period-day": Implies(valid, per == "day"),
         }
 
